@@ -9,14 +9,11 @@ struct multiShardCoordinator
   invariant shards: numberOfShards >= 1
   invariant masks:  maskHigh < numberOfShards || maskLow < numberOfShards
 
-spec fn bytesNeeded(n uint32) int = n <= 256 ? 1 : (n <= 65536 ? 2 : (n <= 16777216 ? 3 : 4))
-spec fn startIdx(n uint32, l int) int = l > bytesNeeded(n) ? l - bytesNeeded(n) : 0
-
 func (msc *multiShardCoordinator) ComputeIdFromBytes(address []byte) (r uint32)
   mode bv
   pure
   requires inv(msc)
-  ensures  valid-shard: r < msc.numberOfShards || (r == 4294967295 && core.IsSmartContractOnMetachain(address[startIdx(msc.numberOfShards, len(address)):], address))
+  ensures  valid-shard: r < msc.numberOfShards || (r == 4294967295 && len(address) > 25 && core.IsSmartContractAddress(address))
 
 loop 1
   invariant 0 <= i && i <= len(buffNeeded)
